@@ -37,6 +37,7 @@ class Core:
         self._global_heap: Dict[int, Any] = {}
         self._const_cache: Dict[Any, Any] = {}
         self._ostr_lits: Dict[str, Any] = {}
+        self._comp_memo: Dict[Any, Any] = {}
 
     # ------------------------------------------------------------------ sorts
     def parse_sort(self, text) -> Sort:
